@@ -174,6 +174,9 @@ structure Stats where
   brsends : Nat := 0      -- messages that crossed a hop with a finite bitrate
   zerolat : Nat := 0      -- … with a finite bitrate and no latency
   brlinks : Nat := 0
+  fwdlegs : Nat := 0      -- delivered legs of forwarded messages (second and later legs)
+  restamped : Nat := 0    -- deliveries whose header held a different, stale receiver id before
+  wantsfwd : Nat := 0     -- sends with forwarding legs or an explicit receiver id
 
 def maxGate (body : List String) : Nat := Id.run do
   let mut n := 0
@@ -312,44 +315,120 @@ def runCase (c : Case) : String := Id.run do
       if !built then
         build := st.net; buildSp := st.sp; built := true
       match (kv rest "gate").bind (ident 'g'), kvNat rest "at", kvNat rest "delay" with
-      | some g, some at_, some delay =>
-        let ss := specSend st buildSp g at_ delay
-        let ms := modelSend st build g at_ delay
+      | some g0, some at0, some delay0 =>
+        let rcv := (kv rest "rcv").bind (ident 'm')
+        let snd := (kv rest "snd").bind (ident 'm')
+        -- forwarding legs: (gate | back, delay)
+        let legs : List (Option Nat × Nat) := match kv rest "fwd" with
+          | none => []
+          | some f => (f.splitOn ",").filterMap fun e =>
+            match e.splitOn ":" with
+            | [g, d] => d.toNat?.map fun d => (if g == "back" then none else ident 'g' g, d)
+            | _ => none
         s := { s with sends := s.sends + 1 }
-        match ss with
-        | some ss =>
+        if !legs.isEmpty || rcv.isSome then s := { s with wantsfwd := s.wantsfwd + 1 }
+        -- model: every leg through `sendH`, the header handed from leg to leg
+        let mut segsM : List String := []
+        let mut segsS : List String := []
+        let mut specKnown := true
+        let mut g := g0
+        let mut issue := at0
+        let mut delay := delay0
+        let mut hdr : Hdr := ⟨snd.getD 999999, rcv.getD 999999, none⟩
+        let mut stale : Option Nat := rcv
+        let mut rest' := legs
+        let mut leg := 0
+        let mut going := true
+        -- the specification's view of the same legs
+        let mut sg := g0
+        let mut sissue := at0
+        let mut sgoing := true
+        for _ in [0:legs.length + 1] do
+          if going then
+            let sm := st.ownerOf g
+            if leg == 0 && !st.active sm issue then
+              segsM := segsM ++ ["n=0"]; going := false
+            else
+              match sendH (st.netAt build) st.ownerOf st.active sm (st.n + 1) g issue (issue + delay) hdr with
+              | .handled m t h true =>
+                segsM := segsM ++ [s!"n=1 rx={mname m} t={t} sender={mname h.sender} receiver={mname h.receiver} last={optG h.last}"]
+                if leg > 0 then s := { s with fwdlegs := s.fwdlegs + 1 }
+                match stale with
+                | some old => if old != m then s := { s with restamped := s.restamped + 1 }
+                | none => pure ()
+                stale := some m
+                match rest' with
+                | [] => going := false
+                | (gate, d) :: more =>
+                  rest' := more
+                  match (match gate with | some x => some x | none => h.last) with
+                  | none => going := false
+                  | some ng =>
+                    if !(st.owner.any (·.1 == ng)) then
+                      -- (a script whose gate line was deleted: the harness finds no such gate)
+                      segsM := segsM ++ ["n=0"]; going := false
+                    else if st.ownerOf ng != m then
+                      segsM := segsM ++ ["wrong-owner"]; going := false
+                    else
+                      g := ng; issue := t; delay := d; hdr := h
+              | .sendPanic => segsM := segsM ++ ["skipped-transit"]; going := false
+              | .outOfFuel => segsM := segsM ++ ["out-of-fuel"]; going := false
+              | _ => segsM := segsM ++ ["n=0"]; going := false
+          if sgoing && specKnown then
+            let d := if leg == 0 then delay0 else ((legs[leg - 1]?).map (·.2)).getD 0
+            let sf := specFate st buildSp sg sissue d
+            match sf with
+            | .dropped => s := { s with drops := s.drops + 1 }
+            | .unseen => s := { s with unseen := s.unseen + 1 }
+            | .senderDown => s := { s with senderdown := s.senderdown + 1 }
+            | _ => pure ()
+            match sf with
+            | .ambiguous => specKnown := false
+            | .transit => segsS := segsS ++ ["skipped-transit"]; sgoing := false
+            | .senderDown | .dropped | .unseen => segsS := segsS ++ ["n=0"]; sgoing := false
+            | .delivered rx t sender last =>
+              segsS := segsS ++ [s!"n=1 rx={mname rx} t={t} sender={mname sender} receiver={mname rx} last={gname last}"]
+              match legs[leg]? with
+              | none => sgoing := false
+              | some (gate, _) =>
+                let ng := gate.getD last
+                if !(st.owner.any (·.1 == ng)) then
+                  segsS := segsS ++ ["n=0"]; sgoing := false
+                else if st.ownerOf ng != rx then
+                  segsS := segsS ++ ["wrong-owner"]; sgoing := false
+                else
+                  sg := ng; sissue := t
+          leg := leg + 1
+        let ms := " | ".intercalate segsM
+        let ss := " | ".intercalate segsS
+        if specKnown then
           if impl != ss then
             return s!"fail {id} op={i} kind=reject line=[{lhs}] spec=[{ss}] model=[{ms}] impl=[{impl}]"
-        | none => pure ()
         if impl != ms then
-          return s!"fail {id} op={i} kind=diverge line=[{lhs}] spec=[{ss.getD "undetermined"}] model=[{ms}] impl=[{impl}]"
-        let sf := specFate st buildSp g at_ delay
-        match sf with
-        | .dropped => s := { s with drops := s.drops + 1 }
-        | .unseen => s := { s with unseen := s.unseen + 1 }
-        | .senderDown => s := { s with senderdown := s.senderdown + 1 }
-        | _ => pure ()
-        match sf with
+          return s!"fail {id} op={i} kind=diverge line=[{lhs}] spec=[{if specKnown then ss else "undetermined"}] model=[{ms}] impl=[{impl}]"
+        -- statistics of the first leg
+        match specFate st buildSp g0 at0 delay0 with
         | .senderDown | .transit => pure ()
         | _ =>
-          let route := specRoute st buildSp (st.n + 1) g none (at_ + delay)
+          let route := specRoute st buildSp (st.n + 1) g0 none (at0 + delay0)
           if route.length ≥ 3 then s := { s with multihopSends := s.multihopSends + 1 }
-          if delay > 0 then s := { s with delayed := s.delayed + 1 }
+          if delay0 > 0 then s := { s with delayed := s.delayed + 1 }
           s := { s with maxhops := max s.maxhops (route.length - 1) }
           let hops := (route.zip route.tail).filterMap fun p => st.link? p.1 p.2
           if hops.any (·.br > 0) then s := { s with brsends := s.brsends + 1 }
           if hops.any (fun l => l.br > 0 && l.lat == 0) then s := { s with zerolat := s.zerolat + 1 }
-          if delay > 0 && Paths.neighbours (st.spAt buildSp at_) g == some [] && route.length ≥ 2 then
+          if delay0 > 0 && Paths.neighbours (st.spAt buildSp at0) g0 == some [] && route.length ≥ 2 then
             s := { s with unwired := s.unwired + 1 }
       | _, _, _ => return s!"fail {id} op={i} kind=badline detail=[{line}]"
     | _ => return s!"fail {id} op={i} kind=badline detail=[{line}]"
   -- non-trivial: a chain of >= 3 hops was walked and a message crossed (or was dropped on) a chain of >= 2 hops;
   -- with shut-down modules additionally >= 1 message met an inactive owner (dropped in transit or ignored on arrival);
   -- with finite-bitrate links >= 1 message crossed one; with run-time connects >= 1 delayed send was issued on a gate
-  -- that was still unconnected and got wired before the send time
+  -- that was still unconnected and got wired before the send time; with forwarded messages / explicit receiver ids
+  -- (and >= 2 modules owning gates) >= 1 delivery of a message whose header held a different (stale) receiver id
   let nt := s.maxhops ≥ 3 && s.multihopSends ≥ 1 && s.links ≥ 3 && (st.down.isEmpty || s.drops + s.unseen ≥ 1)
-    && (s.brlinks == 0 || s.brsends ≥ 1) && (s.late == 0 || s.unwired ≥ 1)
-  return s!"ok {id} nt={if nt then 1 else 0} ops={i} links={s.links} noops={s.noops} panics={s.panics} rings={s.rings} walks={s.walks} sends={s.sends} multihop={s.multihopSends} delayed={s.delayed} maxhops={s.maxhops} downmods={st.down.length} drops={s.drops} unseen={s.unseen} senderdown={s.senderdown} late={s.late} unwired={s.unwired} brlinks={s.brlinks} brsends={s.brsends} zerolat={s.zerolat}"
+    && (s.brlinks == 0 || s.brsends ≥ 1) && (s.late == 0 || s.unwired ≥ 1) && (s.wantsfwd == 0 || s.restamped ≥ 1 || (st.owner.map (·.2)).eraseDups.length ≤ 1)
+  return s!"ok {id} nt={if nt then 1 else 0} ops={i} links={s.links} noops={s.noops} panics={s.panics} rings={s.rings} walks={s.walks} sends={s.sends} multihop={s.multihopSends} delayed={s.delayed} maxhops={s.maxhops} downmods={st.down.length} drops={s.drops} unseen={s.unseen} senderdown={s.senderdown} late={s.late} unwired={s.unwired} brlinks={s.brlinks} brsends={s.brsends} zerolat={s.zerolat} fwdlegs={s.fwdlegs} restamped={s.restamped} wantsfwd={s.wantsfwd}"
 
 def main (stdin : IO.FS.Stream) : IO Unit := do
   let cases ← readCases stdin
